@@ -166,7 +166,7 @@ def build_traces(path, tier, seed):
         steps = int(rng.integers(2, 9))
         master = int(rng.integers(0, k))
         base = np.cumsum(rng.standard_normal(n + 2 * steps))
-        trend = rng.integers(4) == 0
+        trend = bool(rng.integers(4) == 0)
         if trend:
             # exactly representable linear trend (counts, halves), optionally with a ripple whose period is shorter than the
             # search window: x[n+d] - x[n] is then EXACTLY constant for some d, only the true lag makes the overlap coincide
@@ -189,7 +189,12 @@ def build_traces(path, tier, seed):
                     s = s + 0.01 * rng.standard_normal(n)             # not an exact copy
                 s = s + (rng.uniform(-0.05, 0.05) if (i % 3 == 0 and not trend) else 0.0)
                 sigs.append(s)
-        if i % 4 == 1:       # tiny records (1e-9) with offsets of their own size
+        if trend is False and rng.integers(5) == 0:
+            # counts in a narrow integer dtype (squared residuals leave the dtype): exact delayed copies
+            dt_, top = [(np.int8, 120), (np.int16, 30000), (np.int32, 2.0e9)][int(rng.integers(3))]
+            m_ = max(float(np.max(np.abs(base))), 1e-300)
+            sigs = [np.round(base[steps - lg: steps - lg + n] / m_ * top).astype(dt_) for lg in lags]
+        elif i % 4 == 1:       # tiny records (1e-9) with offsets of their own size
             sc_ = float(10.0 ** rng.uniform(-10, -8))
             sigs = [s * sc_ + (0.0 if j == master else sc_ * rng.uniform(0.5, 2.0)) for j, s in enumerate(sigs)]
         elif i % 4 == 3:     # records riding on a large mean level with small offsets
@@ -200,11 +205,13 @@ def build_traces(path, tier, seed):
         # section window: 0 explicit start / end, 1 the default window (first second), 2 start only, 3 from a whole second to the end (end=-1)
         wm = int(rng.integers(4))
         if wm:
-            dt = float(rng.choice([0.1, 0.05, 0.04, 0.025]))
+            dt = float(rng.choice([d_ for d_ in (0.1, 0.05, 0.04, 0.025) if int(1 / d_) + 4 < n]))     # the first second lies inside the record
             e_idx = int(1 / dt) + 1
             s_idx = int(rng.integers(1, e_idx - 2)) if wm == 2 else 0
-        if wm == 3:
+        if wm == 3 and int(1 / dt) + 3 < n:
             s_idx, e_idx = int(1 / dt), n - 1
+        elif wm == 3:
+            wm = 1               # the record ends before the window would start: use the default window instead
         with warnings.catch_warnings():
             warnings.simplefilter("ignore")
             c = eqsig.Cluster([s.copy() for s in sigs], dt, master_index=gen.intlike(rng, master), stypes="acc" if i % 2 else "custom")
